@@ -330,3 +330,39 @@ Proof.
   assert (E : nano (G 500000000) = 500000000%Z) by (vm_compute; reflexivity).
   rewrite E. split; [|unfold BND; lia]. split; [vm_compute; reflexivity|reflexivity].
 Qed.
+
+(* ---------- the amount in 1e-9 units is read back exactly ---------- *)
+Lemma nano_of_cpu_is x k : cpu_is x k -> (0 <= k <= BND)%Z -> nano x = k.
+Proof.
+  intros [Fx Ex] Hk. unfold BND in Hk.
+  destruct (G_correct k) as [Gk _]; [lia|]. rewrite Gk in Ex.
+  destruct (grid_value k ltac:(unfold BND; lia)) as (A1 & A2 & A3).
+  assert (Bx : Rabs (b2r x) <= bpow radix2 60).
+  { rewrite Ex. eapply Rle_trans; [exact A2|]. apply bpow_le. lia. }
+  destruct (fmul_e9_correct x Fx Bx) as [Ep Fp].
+  destruct (f_round_correct _ Fp) as [Eq Fq].
+  assert (Z0 : Rabs (0 - 0) <= eps * Rabs 0 + eta).
+  { rewrite Rminus_0_r, Rabs_R0. unfold eps, eta. lra. }
+  assert (NR : ZnearestA (b2r (fmul x f_1e9)) = k).
+  { apply Znearest_imp. rewrite Ep.
+    apply (core (IZR k / e9) 0 (b2r x) 0 (b2r x) _ k).
+    - rewrite Ex. exact A1.
+    - exact Z0.
+    - rewrite Rplus_0_r, Rminus_eq_0, Rabs_R0. pose proof (Rabs_pos (b2r x)). unfold eps, eta. nra.
+    - apply rnd_err.
+    - rewrite Rabs_R0, Rplus_0_r, A3. apply IZR_le. lia.
+    - unfold e9. field. }
+  rewrite NR in Eq.
+  unfold nano, f_to_int. rewrite Fq.
+  pose proof (Btrunc_correct 53 1024 (eq_refl _) (f_round (fmul x f_1e9))) as T.
+  rewrite Eq, round_FIX0, Ztrunc_IZR in T. apply eq_IZR in T. rewrite T.
+  replace (in_int64 k) with true; [reflexivity|].
+  symmetry. unfold in_int64, min_int, max_int. apply andb_true_iff. split; apply Z.leb_le; lia.
+Qed.
+
+(* a workload whose cpu request is a decimal with at most nine places (up to
+   2^49 units) is on the grid *)
+Lemma on_grid_of_decimal (w : wres) k : cpu_is (wr_cpu_req w) k -> (0 <= k <= BND)%Z -> on_grid w.
+Proof.
+  intros C Hk. unfold on_grid, kf. rewrite (nano_of_cpu_is _ k C Hk). split; assumption.
+Qed.
